@@ -162,7 +162,7 @@ class Tr:
                 a, t = self.ex(f.value, env)
                 if t != "str":
                     self.bad(n, "startswith on " + t)
-                return "(%s.startsWith %s)" % (a, lean_str(n.args[0].value)), "bool"
+                return "(Ari.pyStartsWith %s %s)" % (a, lean_str(n.args[0].value)), "bool"
             key = ast.unparse(f)
             if key in self.effects and self.effects[key][0] == "expr":
                 return self.effects[key][1](self, n, env)
@@ -331,7 +331,7 @@ class Tr:
         self.bad(s)
 
 
-HEADER = "/- GENERATED by harness/extract.py from %s — do not edit; regenerated on every check run. -/\n"
+HEADER = "/- GENERATED by harness/extract.py from %s — do not edit; regenerated on every check run. -/\nimport AriVerif.Py.Text\n"
 
 
 def class_consts(cls, num, prefix):
